@@ -1176,7 +1176,8 @@ def observe_node(node, eff, errs):
     ierrs = init_errors(node.errors)
     obs = {'configured': list(eff), 'registered': list(node.modules), 'reported': [k for k in errs],
            'starts': not node.errors, 'initReported': sorted({e[0] for e in ierrs}), 'attached': [],
-           'init': ierrs, 'blocks': creation_blocks(node.errors)}
+           'init': ierrs, 'blocks': creation_blocks(node.errors),
+           'unclassified': [e.get('text') for e in errs.get('?', [])]}
     if not node.errors:
         for name, m in node.modules.items():
             for k, po in type(m).propertyDict.items():
@@ -1216,6 +1217,8 @@ def node_sig(judge, nodeobs):
 
 def compare_node(model, nodeobs):
     diffs = []
+    if '?' in nodeobs['reported'] or any(e[1] == 'other' for e in nodeobs['init']):
+        diffs.append(f'an error line of the node is not classified: {nodeobs["unclassified"][:3]} {nodeobs["init"]}')
     if model['registered'] != nodeobs['registered'] or model['starts'] != nodeobs['starts'] \
             or [e[0] for e in model['errors']] != nodeobs['reported']:
         diffs.append('registered / reported / starts')
